@@ -15,6 +15,7 @@ func init() {
 	hx.Register("C04", func(c *hx.Ctx) {
 		c.Rule(vfCoreRule + " Window invariants are evaluated after every call into either endpoint and at every emission; asymmetric windows with a slow reader are added.")
 		vfC04honest(c)
+		vfAdversarialBFS(c, "C04:", hx.Pick(c, 3, 4), !c.Quick())
 	})
 	hx.Register("C18", func(c *hx.Ctx) {
 		c.Rule("clean path: every configuration of the grid is one deterministic execution with no faults; non-trivial = the transfer used more than one segment")
